@@ -30,6 +30,13 @@ func scratchModfile(repo string) (string, func(), error) {
 	}
 	for _, f := range []string{"go.mod", "go.sum"} {
 		b, err := os.ReadFile(filepath.Join(repo, f))
+		if err != nil && f == "go.sum" {
+			// go.sum is git-ignored in gotid/god: a fresh checkout has none; fall back to the copy kept beside
+			// the verifier (it only pins module hashes)
+			if exe, e2 := os.Executable(); e2 == nil {
+				b, err = os.ReadFile(filepath.Join(filepath.Dir(exe), "..", "govc", "repo.go.sum"))
+			}
+		}
 		if err != nil {
 			return "", nil, err
 		}
